@@ -174,7 +174,10 @@ def _s(k):
   return k
 
 
-def check_ir_design(name, d, acc, groups=GROUPS, inversions=(), seam=True):
+HASH_PERMS = (None, (7919, 1), (104729, 2), (999983, 5))
+
+
+def check_ir_design(name, d, acc, groups=GROUPS, inversions=(), seam=True, perms=(0,), seam_cap=40):
   blocks, nets = ir_model(d)
   nodes, req = required_pairs(blocks, nets, inversions)
   ffkeys = {k for k, v in blocks.items() if v[2] == "ff"}
@@ -196,19 +199,29 @@ def check_ir_design(name, d, acc, groups=GROUPS, inversions=(), seam=True):
     acc.add("orders", (name, tuple(map(str, seq1))))
     return seq1
 
-  for g in groups:
-    dut = Dut(d, g, shuffle=(lambda n: 0))
-    try: one(dut, f"group:{g}", dict(mode="group", group=g))
-    except Exception as ex:
-      acc.violation(f"group:{g}:raised", dict(base, mode="group", group=g), "schedulable", repr(ex)[:200])
-    finally: dut.close()
+  import contextlib
+  from vt import seams
+  for hp in perms:
+    # the order in which GenDAGPass and the schedulers meet blocks, signals and constraints follows set iteration order:
+    # object-hash permutations reach tie-breaks that one process never shows
+    mkctx = (lambda: contextlib.nullcontext()) if HASH_PERMS[hp] is None else (lambda m=HASH_PERMS[hp]: seams.hash_seam(lambda o, i: (i * m[0] + m[1]) % 1000003))
+    for g in groups:
+      dut = None
+      try:
+        with mkctx():
+          dut = Dut(d, g, shuffle=(lambda n: 0))
+        one(dut, f"group:{g}", dict(mode="group", group=g, hp=hp))
+      except Exception as ex:
+        acc.violation(f"group:{g}:raised", dict(base, mode="group", group=g, hp=hp), "schedulable", repr(ex)[:200])
+      finally:
+        if dut: dut.close()
   if seam:
     def run(cr):
       dd = Dut(d, "simple", shuffle=lambda n: cr.choose(n, 0))
       try: return tuple(map(str, one(dd, "simple-seam", dict(mode="seam", choices=[p[1] for p in cr.points]))))
       finally: dd.close()
     n = 0
-    for choices, order in choice_dfs(run, bound=None, cap=40):
+    for choices, order in choice_dfs(run, bound=None, cap=seam_cap):
       n += 1
     acc.count("seam_schedules", n)
   acc.count("designs")
@@ -471,7 +484,7 @@ def run_shard(shard, tier, seed):
   for j in range(i, len(items), k):
     kind, name = items[j]
     if kind == "ir":
-      check_ir_design(name, irs[name], acc, seam=(tier == "thorough" or j % 4 == 0))
+      check_ir_design(name, irs[name], acc, seam=(tier == "thorough" or j % 4 == 0), perms=(0,) if tier == "quick" else (0, 1, 2, 3), seam_cap=40 if tier == "quick" else 400)
       if j % 60 == 0: acc.sample(dict(design=name, kind="ir"))
     elif kind == "explicit":
       d, inv = expl[name]
@@ -493,7 +506,7 @@ def replay(case):
     d = ir.norm_comp(case["ir"])
     inv = tuple(tuple(p) for p in case.get("inversions", []))
     groups = (case["group"],) if mode == "group" else ()
-    check_ir_design(case["design"], d, acc, groups=groups, inversions=inv, seam=(mode == "seam"))
+    check_ir_design(case["design"], d, acc, groups=groups, inversions=inv, seam=(mode == "seam"), perms=(case.get("hp", 0),), seam_cap=400)
   return [(v["sig"], v["expected"], v["observed"], v["msg"]) for v in acc.violations]
 
 
